@@ -67,7 +67,7 @@ def replay(case):
 def bounded(seed, tier):
     rnd = random.Random(seed); fails = []; ev = 0
     for kind in ('CPA', 'CPAAlt', 'DPA', 'ANOVA', 'NICV', 'SNR', 'SNRp', 'MIA', 'MIAauto', 'TemplateBuild'):
-        for t in range(10 if tier == 'quick' else 300):
+        for t in range(10 if tier == 'quick' else 60):
             pat = [rnd.choice(['g', rnd.randrange(12), rnd.randrange(12)]) for _ in range(rnd.choice([1, 2, 3, 5]))] + ['g']
             ev += 1
             try: r = history_case(kind, rnd, pat)
